@@ -1,5 +1,5 @@
 (* C02sim_e -- per-state simulation lemmas (M_tok state method vs S_tok), see Proofs/C02sim.v and C02simtac.v.
-   Each lemma:  R m s -> st m = X -> wk m = true -> covered m = true -> simok s (step_X m). *)
+   Each lemma:  R m s -> st m = X -> wk m = true -> plain m = true -> simok s (step_X m). *)
 From Coq Require Import NArith List Bool Arith Lia ZifyBool ZifyN.
 From Verif Require Import Sx Str.
 From Verif.Gen Require Import Entities Tokenizer.
@@ -9,24 +9,24 @@ From Verif.Proofs Require Import C02a C02dict C08 C02sim C02simtac.
 Import ListNotations.
 Local Open Scope N_scope.
 
-Lemma sim_attributeValueDoubleQuotedState : forall m s, R m s -> st m = attributeValueDoubleQuotedState -> wk m = true -> covered m = true -> simok s (step_attributeValueDoubleQuotedState m).
+Lemma sim_attributeValueDoubleQuotedState : forall m s, R m s -> st m = attributeValueDoubleQuotedState -> wk m = true -> plain m = true -> simok s (step_attributeValueDoubleQuotedState m).
 Proof. sim_state step_attributeValueDoubleQuotedState. all: (batch_goal batch_val). Qed.
 
-Lemma sim_attributeValueUnQuotedState : forall m s, R m s -> st m = attributeValueUnQuotedState -> wk m = true -> covered m = true -> simok s (step_attributeValueUnQuotedState m).
+Lemma sim_attributeValueUnQuotedState : forall m s, R m s -> st m = attributeValueUnQuotedState -> wk m = true -> plain m = true -> simok s (step_attributeValueUnQuotedState m).
 Proof. sim_state step_attributeValueUnQuotedState. all: (batch_goal batch_val). Qed.
 
-Lemma sim_commentEndDashState : forall m s, R m s -> st m = commentEndDashState -> wk m = true -> covered m = true -> simok s (step_commentEndDashState m).
+Lemma sim_commentEndDashState : forall m s, R m s -> st m = commentEndDashState -> wk m = true -> plain m = true -> simok s (step_commentEndDashState m).
 Proof. sim_state step_commentEndDashState. Qed.
 
-Lemma sim_rawtextState : forall m s, R m s -> st m = rawtextState -> wk m = true -> covered m = true -> simok s (step_rawtextState m).
+Lemma sim_rawtextState : forall m s, R m s -> st m = rawtextState -> wk m = true -> plain m = true -> simok s (step_rawtextState m).
 Proof. sim_state step_rawtextState. all: (batch_goal batch_emit). Qed.
 
-Lemma sim_scriptDataDoubleEscapeStartState : forall m s, R m s -> st m = scriptDataDoubleEscapeStartState -> wk m = true -> covered m = true -> simok s (step_scriptDataDoubleEscapeStartState m).
+Lemma sim_scriptDataDoubleEscapeStartState : forall m s, R m s -> st m = scriptDataDoubleEscapeStartState -> wk m = true -> plain m = true -> simok s (step_scriptDataDoubleEscapeStartState m).
 Proof. sim_state step_scriptDataDoubleEscapeStartState. Qed.
 
-Lemma sim_scriptDataLessThanSignState : forall m s, R m s -> st m = scriptDataLessThanSignState -> wk m = true -> covered m = true -> simok s (step_scriptDataLessThanSignState m).
+Lemma sim_scriptDataLessThanSignState : forall m s, R m s -> st m = scriptDataLessThanSignState -> wk m = true -> plain m = true -> simok s (step_scriptDataLessThanSignState m).
 Proof. sim_state step_scriptDataLessThanSignState. Qed.
 
-Lemma sim_selfClosingStartTagState : forall m s, R m s -> st m = selfClosingStartTagState -> wk m = true -> covered m = true -> simok s (step_selfClosingStartTagState m).
+Lemma sim_selfClosingStartTagState : forall m s, R m s -> st m = selfClosingStartTagState -> wk m = true -> plain m = true -> simok s (step_selfClosingStartTagState m).
 Proof. sim_state step_selfClosingStartTagState. Qed.
 
